@@ -1139,9 +1139,11 @@ class Network:
 
         elif isinstance(peer_init_message, PeerPierceFirewall.Request):
             ticket = peer_init_message.ticket
-            try:
-                connection_future = self._expected_connection_futures[ticket]
-            except KeyError:
+            connection_future = self._expected_connection_futures.get(ticket)
+            # A future that is already done belongs to a request that gave up
+            # (timeout, cancellation) in this very loop iteration, its removal
+            # callback just did not run yet
+            if connection_future is None or connection_future.done():
                 logger.warning(
                     "%s:%d : unknown pierce firewall ticket : %d",
                     connection.hostname, connection.port, ticket
